@@ -138,6 +138,8 @@ StepRes(h, c, t, e) ==
     [] e.act = "Tick"   -> [ok |-> TRUE, rule |-> TRUE, hs |-> h, cl |-> c, now |-> t + e.d]
     [] e.act = "Submit" -> LET r == SubmitRes(h, c, t, e.id) IN
                            [ok |-> r.ok, rule |-> r.rule, hs |-> h, cl |-> r.cl, now |-> t]
+    \* genesis export and re-import of the chain that holds the client (C16): the client is what it was
+    [] e.act = "Export" -> [ok |-> TRUE, rule |-> TRUE, hs |-> h, cl |-> c, now |-> t]
 
 Do(e) ==
   LET r == StepRes(hs, cl, now, e) IN
